@@ -42,6 +42,18 @@ func Gen(t *rapid.T, backend sim.Backend, nClients int, opts ...Options) (keys [
 		}
 		splits = append(splits, k)
 	}
+	// unistore relies on the caller contract that a key which pessimistic transactions write WITHOUT locking it
+	// (TiDB: non-unique index keys) is never pessimistically locked by anybody: meeting such a lock, its prewrite
+	// reports it with ttl 0, and the resolver then removes the lock of a live transaction. So on unistore the keys of
+	// a case are split once into "never locked" and "always locked first".
+	uniUnlocked := map[string]bool{}
+	if backend == sim.Uni {
+		for _, k := range keys {
+			if rapid.IntRange(0, 3).Draw(t, "unlockedkey") == 0 {
+				uniUnlocked[k] = true
+			}
+		}
+	}
 	nTxn := rapid.IntRange(2, 4).Draw(t, "ntxn")
 	key := func(name string) string { return rapid.SampledFrom(keys).Draw(t, name) }
 	perTxn := make([][]*sim.Step, nTxn)
@@ -51,7 +63,10 @@ func Gen(t *rapid.T, backend sim.Backend, nClients int, opts ...Options) (keys [
 			pess = rapid.Bool().Draw(t, "pessimistic2") // the clean-up paths of pessimistic transactions are the richer ones
 		}
 		b := &sim.Step{Txn: i, Op: "begin", Client: rapid.IntRange(0, nClients-1).Draw(t, "client"), Pessimistic: pess}
-		if backend == sim.Uni {
+		// the commit mode is requested on both stores: mocktikv knows neither async commit nor 1PC and answers every
+		// such prewrite with the fall-back form (no min-commit ts, no 1PC commit ts), so there the client's fall-back
+		// paths run; unistore executes the modes
+		{
 			switch rapid.IntRange(0, 3).Draw(t, "mode") {
 			case 1:
 				b.Async = true
@@ -71,11 +86,7 @@ func Gen(t *rapid.T, backend sim.Backend, nClients int, opts ...Options) (keys [
 		unlocked := map[string]bool{}
 		insertedKeys := map[string]bool{}
 		if pess && backend == sim.Uni {
-			for _, k := range keys {
-				if rapid.IntRange(0, 3).Draw(t, "unlockedkey") == 0 {
-					unlocked[k] = true
-				}
-			}
+			unlocked = uniUnlocked // the same classes for every transaction of the case (see below)
 		}
 		lockable := func(name string) (string, bool) {
 			var c []string
@@ -98,7 +109,10 @@ func Gen(t *rapid.T, backend sim.Backend, nClients int, opts ...Options) (keys [
 			if pess && backend != sim.Uni {
 				ops = append(ops, "lock", "lock")
 			}
-			if pess && o.Aggressive {
+			if pess && o.Aggressive && backend == sim.Uni {
+				ops = append(ops, "aggr-start", "aggr-start")
+			}
+			if pess && o.Aggressive && backend != sim.Uni {
 				ops = append(ops, "lock", "lock", "aggr-start", "aggr-retry", "aggr-retry", "aggr-done", "aggr-cancel")
 			}
 			if o.NoReads {
@@ -185,8 +199,27 @@ func Gen(t *rapid.T, backend sim.Backend, nClients int, opts ...Options) (keys [
 				// a whole statement: 1-3 attempts of 1-2 lock calls over a small key set with varying options, ended by
 				// Done or Cancel (the single aggr-* ops above still produce the irregular sequences)
 				stmtKeys := []string{key("sk"), key("sk")}
+				if backend == sim.Uni {
+					// on unistore a pessimistic transaction never locks a key of its unlocked set (see above)
+					stmtKeys = nil
+					for x := 0; x < 2; x++ {
+						if k, ok := lockable("sk"); ok {
+							stmtKeys = append(stmtKeys, k)
+						}
+					}
+					if len(stmtKeys) == 0 {
+						seq[len(seq)-1].Op = "get"
+						seq[len(seq)-1].Keys = []string{key("k")}
+						continue
+					}
+				}
+				first := true
 				for a := rapid.IntRange(1, 3).Draw(t, "attempts"); a > 0; a-- {
-					for c := rapid.IntRange(1, 2).Draw(t, "calls"); c > 0; c-- {
+					minCalls := 0 // a retried attempt may lock nothing (the statement found no row this time)
+					if first {
+						minCalls, first = 1, false
+					}
+					for c := rapid.IntRange(minCalls, 2).Draw(t, "calls"); c > 0; c-- {
 						l := &sim.Step{Txn: i, Op: "lock", Keys: []string{rapid.SampledFrom(stmtKeys).Draw(t, "lk")}}
 						if rapid.IntRange(0, 3).Draw(t, "two") == 0 {
 							l.Keys = append(l.Keys, rapid.SampledFrom(stmtKeys).Draw(t, "lk2"))
@@ -205,7 +238,18 @@ func Gen(t *rapid.T, backend sim.Backend, nClients int, opts ...Options) (keys [
 						seq = append(seq, &sim.Step{Txn: i, Op: "aggr-retry"})
 					}
 				}
-				seq = append(seq, &sim.Step{Txn: i, Op: rapid.SampledFrom([]string{"aggr-done", "aggr-done", "aggr-cancel"}).Draw(t, "stmtend")})
+				stmtEnd := rapid.SampledFrom([]string{"aggr-done", "aggr-done", "aggr-cancel"}).Draw(t, "stmtend")
+				seq = append(seq, &sim.Step{Txn: i, Op: stmtEnd})
+				if backend == sim.Uni && stmtEnd == "aggr-done" {
+					// the statement then writes the rows it locked, so that no lock-only key is left (see Options)
+					seen := map[string]bool{}
+					for _, k := range stmtKeys {
+						if !seen[k] {
+							seen[k] = true
+							seq = append(seq, &sim.Step{Txn: i, Op: "set", Keys: []string{k}, Val: fmt.Sprintf("v%d.%d.s", i, j), LockFirst: true})
+						}
+					}
+				}
 			}
 		}
 		end := &sim.Step{Txn: i, Op: "commit"}
